@@ -371,7 +371,7 @@ func cmdCheck(args []string) int {
 	if len(samples) == 0 {
 		cov["samples"] = []map[string]interface{}{{"note": "no discharged non-trivial obligation"}}
 	}
-	if *tier == "thorough" && os.Getenv("GOVC_REPO") == "" {
+	if *tier == "thorough" && os.Getenv("GOVC_CHILD") == "" {
 		st := runSelftest(id)
 		cov["must_fail_corpus"] = st
 		for _, m := range st.Missed {
@@ -466,12 +466,12 @@ func countsFor(pc *PropConfig, vc *VC, sweep bool) bool {
 var trustedBase = []string{
 	"go/packages, go/types, go/ssa (golang.org/x/tools v0.29.0, NaiveForm) and the gc compiler's agreement with them",
 	"govc's own SSA-to-SMT translation (tested by the must-fail corpus in /verif/selftest)",
-	"z3 5.1.0 / z3 4.8.12 / cvc5 1.0.3: an 'unsat' answer is trusted (cross-checked between solvers in the thorough tier)",
+	"z3 5.1.0 / z3 4.8.12 / cvc5 1.0.3 (saturating and E-matching configurations): an 'unsat' answer is trusted (cross-checked between solvers in the thorough tier)",
 	"assumed contracts of external packages in /verif/libspec (listed per run under library_contracts_used)",
 }
 
 var baseAssumptions = []string{
-	"append is modelled as copying into a fresh backing array: in-place growth into spare capacity visible through another slice is not modelled",
+	"append copies into a fresh backing array, except that in-place growth is modelled exactly when the operand may derive from a reslice made in the same function; spare capacity shared through slices created elsewhere is not modelled",
 	"a callee may allocate: heap entries of objects allocated by a callee are constrained only by the callee's postcondition",
 	"termination is not proved (partial correctness); recursion and loops are cut by contracts and invariants",
 	"strings are an uninterpreted sort with length; no string theory",
